@@ -1110,7 +1110,78 @@ theorem ticker_rounds_exclude (i ttl td : Nat) (hg : durationGuard ttl = some td
   rw [hsplit] at hk
   exact r_no_other_obtains_while_held s i j ttl' es1 es2 hinv hv ht hk
 
+/-! ### a renewal that is answered late (model part 4)
+
+`renewLease` gives each renewal `context.Background()`: a request that needs `lat` to reach the KV is waited for. -/
+
+/-- as coded, a slow renewal of a running goroutine is "time `lat` passes, then the ticker's renewal": it lies within
+the schedules of `held_with_ticker` / `r_no_other_obtains_while_held` -/
+theorem slowRenew_eq (s : RSt) (i ttl lat : Nat) (ht : i ∈ s.tickers) :
+    slowRenew s i ttl lat = rstep (rrun s [.ev (.tick lat)]) (.ev (.renew i ttl)) := by
+  show (if i ∈ s.tickers then _ else _) = _
+  rw [if_pos ht]
+  rfl
+
+/-- the ticker's renewal of a valid holder whose goroutine runs: accepted, the goroutine goes on, a full TTL again -/
+theorem renew_running_valid (s1 : RSt) (i ttl td : Nat) (hg : durationGuard ttl = some td) (hinv1 : Inv s1.lock)
+    (hv1 : ValidHolds s1.lock i) (ht1 : i ∈ s1.tickers) :
+    ValidHolds (rstep s1 (.ev (.renew i ttl))).1.lock i ∧ i ∈ (rstep s1 (.ev (.renew i ttl))).1.tickers ∧
+    Inv (rstep s1 (.ev (.renew i ttl))).1.lock ∧
+    (rstep s1 (.ev (.renew i ttl))).1.lock.now = s1.lock.now ∧
+    (rstep s1 (.ev (.renew i ttl))).1.lock.lease = s1.lock.now + td ∧
+    (rstep s1 (.ev (.renew i ttl))).2 = .renewed (s1.lock.now + td) := by
+  have hR : RHarmless i s1 (.ev (.renew i ttl)) := by intro _; rw [hg]; rfl
+  have h2 := holder_step s1 i _ hinv1 hv1 ht1 hR
+  have hinv2 : Inv (rstep s1 (.ev (.renew i ttl))).1.lock := rinv_step leaseParent s1 (.ev (.renew i ttl)) hinv1
+  have heq : rstep s1 (.ev (.renew i ttl)) =
+      ({ lock := { s1.lock with lease := s1.lock.now + td, holders := setHolder s1.lock.holders i (s1.lock.now + td) },
+         tickers := s1.tickers }, .renewed (s1.lock.now + td)) := by
+    show rstepP leaseParent s1 _ = _
+    rw [rstepP_renew_running _ s1 i ttl ht1, renew_of_validHolds s1.lock i ttl td hv1 hg]
+    rfl
+  refine ⟨h2.1, h2.2, hinv2, ?_, ?_, ?_⟩ <;> rw [heq]
+
+/-- **C49 (locks: a slow renewal is not a lost lock).** `i` validly holds the lock, its goroutine runs, and the
+renewal request it makes now needs `lat` to reach the KV, less than what is left of the lease — however `lat`
+compares with the ticker period. Then the renewal is accepted when it arrives: `i` still validly holds, the goroutine
+still runs, and the lease is a full TTL long again (`now + td ≤ lease`, the starting condition of
+`ticker_rounds_keepAlive`). -/
+theorem slow_renewal_keeps (s : RSt) (i ttl td lat : Nat) (hg : durationGuard ttl = some td) (hinv : Inv s.lock)
+    (hv : ValidHolds s.lock i) (ht : i ∈ s.tickers) (hl : s.lock.now + lat < s.lock.lease) :
+    ValidHolds (slowRenew s i ttl lat).1.lock i ∧ i ∈ (slowRenew s i ttl lat).1.tickers ∧
+    Inv (slowRenew s i ttl lat).1.lock ∧
+    (slowRenew s i ttl lat).1.lock.now = s.lock.now + lat ∧
+    (slowRenew s i ttl lat).1.lock.lease = s.lock.now + lat + td ∧
+    (slowRenew s i ttl lat).2 = .renewed (s.lock.now + lat + td) := by
+  rw [slowRenew_eq s i ttl lat ht]
+  have hT : RHarmless i s (.ev (.tick lat)) := hl
+  have h1 := holder_step s i _ hinv hv ht hT
+  have hinv1 : Inv (rstep s (.ev (.tick lat))).1.lock := rinv_step leaseParent s (.ev (.tick lat)) hinv
+  exact renew_running_valid (rstep s (.ev (.tick lat))).1 i ttl td hg hinv1 h1.1 h1.2
+
+/-- … and while the request is under way (any time `d ≤ lat` after it was made) every lock attempt of every
+instance is refused and changes nothing -/
+theorem slow_renewal_excludes (s : RSt) (i j ttl' d lat : Nat) (hinv : Inv s.lock) (hv : ValidHolds s.lock i)
+    (ht : i ∈ s.tickers) (hl : s.lock.now + lat < s.lock.lease) (hd : d ≤ lat) :
+    rstep (rrun s [.ev (.tick d)]) (.ev (.lockTry j ttl')) = (rrun s [.ev (.tick d)], .conflict) ∨
+    rstep (rrun s [.ev (.tick d)]) (.ev (.lockTry j ttl')) = (rrun s [.ev (.tick d)], .invalidTTL) := by
+  apply r_no_other_obtains_while_held s i j ttl' [.ev (.tick d)] [] hinv hv ht
+  refine ⟨?_, trivial, trivial⟩
+  show s.lock.now + d < s.lock.lease
+  omega
+
+/-- … and afterwards the ticker alone keeps the holder alive again: after a slow renewal, every schedule of ticker
+rounds (see `ticker_rounds_keepAlive`) satisfies the hypotheses of `held_with_ticker`, so every lock attempt in it is
+refused (`r_no_other_obtains_while_held`) -/
+theorem slow_renewal_then_rounds (s : RSt) (i ttl td lat : Nat) (hg : durationGuard ttl = some td) (hinv : Inv s.lock)
+    (hv : ValidHolds s.lock i) (ht : i ∈ s.tickers) (hl : s.lock.now + lat < s.lock.lease)
+    (rs : List (Nat × List REv)) (hd : ∀ r ∈ rs, r.1 < td) (hq : ∀ r ∈ rs, ∀ e ∈ r.2, Quiet e) :
+    RKeepsAlive i (slowRenew s i ttl lat).1 (tickerRounds i ttl rs) := by
+  obtain ⟨h1, h2, h3, h4, h5, _⟩ := slow_renewal_keeps s i ttl td lat hg hinv hv ht hl
+  exact ticker_rounds_keepAlive i ttl td hg rs hd hq _ h3 h1 h2 (by rw [h4, h5]; exact Nat.le_refl _)
+
 /-! ## non-vacuity -/
+
 
 -- the repaired listing on the formerly failing input: keys a/b, a/b/x, a/b/y/z, a/bc/q
 example : listNonRec (["a/b", "a/b/x", "a/b/y/z", "a/bc/q"].map (fun s => kvKeyName s.toList)) "a/b".toList
@@ -1186,5 +1257,29 @@ example :
     1 ∉ s.tickers ∧ s.lock.lease = second ∧ s.lock.holder 1 = some second := by decide
 example : rrun {} demoPrefix = rrun {} (demoPrefix.filter (fun e => !e.isCtxDone)) ∧ (demoPrefix.filter (fun e => !e.isCtxDone)).length + 1 = demoPrefix.length :=
   ⟨acquire_ctx_irrelevant {} demoPrefix, by decide⟩
+
+
+-- part 4. A (ttl 2 s) locks at 0, renews at 0.5 s, and the request its ticker makes at 1 s — 1.5 s of lease left —
+-- needs 0.9 s to reach the KV (longer than the ticker period of 0.5 s). The hypotheses of `slow_renewal_keeps` hold:
+def demoSlow : RSt :=
+  rrun {} [.ev (.lockTry 1 (2*second)), .ev (.tick (second/2)), .ev (.renew 1 (2*second)), .ev (.tick (second/2))]
+example :
+    Inv demoSlow.lock ∧ ValidHolds demoSlow.lock 1 ∧ 1 ∈ demoSlow.tickers ∧
+    demoSlow.lock.now + 9*second/10 < demoSlow.lock.lease ∧ durationGuard (2*second) = some (2*second) :=
+  ⟨rinv_reachable leaseParent _, ⟨2500000000, by decide, by decide, by decide⟩, by decide, by decide, by decide⟩
+-- as coded the renewal is awaited: A holds until 3.9 s and B, trying 3 s after A's Lock, is refused.
+-- SENSITIVITY: what the property needs from `renewLease`. With a deadline of one ticker period per attempt the same
+-- request is abandoned after 0.5 s, the goroutine returns, A still believes it holds the lock (token 2.5 s), and B's
+-- attempt at 3 s SUCCEEDS although A never unlocked and the KV failed nothing
+example :
+    let a := (slowRenew demoSlow 1 (2*second) (9*second/10)).1
+    let b := (slowRenewP (.perAttempt (second/2)) demoSlow 1 (2*second) (9*second/10)).1
+    1 ∈ a.tickers ∧ a.lock.lease = 39*second/10 ∧
+    (rstep (rrun a [.ev (.tick (11*second/10))]) (.ev (.lockTry 2 (2*second)))).2 = .conflict ∧
+    1 ∉ b.tickers ∧ b.lock.holder 1 = some (25*second/10) ∧
+    (rstep (rrun b [.ev (.tick (15*second/10))]) (.ev (.lockTry 2 (2*second)))).2 = .acquired (5*second) := by
+  refine ⟨by decide, by decide, by decide, by decide, by decide, by decide⟩
+-- a per-attempt deadline that the latency stays below changes nothing
+example : slowRenewP (.perAttempt second) demoSlow 1 (2*second) (9*second/10) = slowRenew demoSlow 1 (2*second) (9*second/10) := rfl
 
 end Specter.C49
